@@ -56,6 +56,7 @@ package setec
 
 //@ func (*Store).LookupSecret(s, ctx, name) (sec, err)
 //@   requires storeInv(s) && !s.active.Mutex && ctx != nil && s.client != nil
+//@   at call lookupSecretInternal: assert [C16 lookup.single-attempt-no-automatic-retry] !defined(call_lookupSecretInternal_1)
 //@   ensures [C16 lookup.gate] (!old(has(s.active.m, name)) && !s.allowLookup) ==> (sec == nil && err != nil && net == old(net) && sameEntries(s))
 //@   ensures [C16 lookup.known-no-request] old(has(s.active.m, name)) ==> (sec != nil && err == nil && net == old(net) && sameEntries(s))
 //@   ensures [C12 lookup.inv] storeInv(s) && !s.active.Mutex && handlesKept(s) && valuesKept(s)
@@ -311,6 +312,7 @@ package setec
 //@     invariant [state] s != nil && storeInv(s) && !s.active.Mutex && ctx != nil && s.client == cfg.Client && cfg.Client != nil && s.allowLookup == cfg.AllowLookup && s.expiryAge == cfg.ExpiryAge
 //@     invariant [listed] forall i int :: (0 <= i && i < len(cfg.Secrets)) ==> (has(s.active.m, cfg.Secrets[i]) && s.active.m[cfg.Secrets[i]].Declared)
 //@     invariant [fields-nonnil] forall j int :: (0 <= j && j < len(structs)) ==> structs[j] != nil
+//@     progress [C20 newstore.a-failing-struct-is-reported-at-once] call_Apply == nil
 
 // others' values are never touched by populating a struct (access stamps may change)
 //@ pred valuesKept(s *Store) { forall n string :: old(has(s.active.m, n)) ==> (has(s.active.m, n) && s.active.m[n] == old(s.active.m[n]) && s.active.m[n].Secret == old(s.active.m[n].Secret) && s.active.m[n].Declared == old(s.active.m[n].Declared)) }
@@ -344,6 +346,7 @@ package setec
 // construction (the store is not shared yet) and in helpers whose callers hold the lock.
 //@ guarded [C12 entries-accessed-under-the-store-lock] cachedSecret: Secret, LastAccess, Declared by active.Mutex of Store except NewStore, initializeActive, isActiveSetValid, flushCacheLocked, hasExpired, lastAccessTime
 //@ nocall [C05,C11,C13,C18 cache-written-only-atomically] in client/setec: os.WriteFile, os.Create, os.OpenFile, os.Rename, os.Truncate, (*os.File).Write, (*os.File).WriteString
+//@ nocall [C11 poll-ticker-never-rearmed] in client/setec: (*time.Ticker).Reset
 //@ nocall [C11,C12,C16 coalescing-never-abandoned] in client/setec: (*golang.org/x/sync/singleflight.Group).Forget
 //@ callers [C16 lookup-closure-only-via-do] (*client/setec.Store).lookupSecretInternal$1 only-from (*client/setec.Store).lookupSecretInternal (value)
 // A-interval: a poll interval of at least 5ns (below that 2*interval/10 is 0 and rand.Intn panics)
@@ -375,9 +378,12 @@ package setec
 //@   ensures [C15 notify.others-untouched] forall c ref :: c != ref(w.ready) ==> chlen(c) == old(chlen(c))
 //@ func (*Store).lookupWatcher(s, ctx, name) (w, err)
 //@   requires storeInv(s) && !s.active.Mutex && ctx != nil && s.client != nil
+//@   interference at lookupSecretInternal writers (*client/setec.Store).lookupWatcher assume storeInv(s) && !s.active.Mutex && slotRecvs == old(slotRecvs) && handlesKept(s) &&
+//@        (old(has(s.active.w, name)) ==> has(s.active.w, name)) && len(s.active.w[name]) >= old(len(s.active.w[name])) && midWatchers == len(s.active.w[name])
+//@   ensures [C15,C16 watcher.keeps-watchers-registered-meanwhile] (err == nil && !old(has(s.active.m, name))) ==> len(s.active.w[name]) == midWatchers + 1
 //@   ensures [C16 watcher.gate] (!old(has(s.active.m, name)) && !s.allowLookup) ==> (err != nil && net == old(net) && sameEntries(s))
 //@   ensures [C15 watcher.registered] err == nil ==> (w.ready != nil && fresh(w.ready) && isSlot(w.ready) && chcap(w.ready) == 1 && chlen(w.ready) == 0 && has(s.active.w, name) && has(s.active.f, name) && w.Secret != nil &&
-//@        len(s.active.w[name]) == old(len(s.active.w[name])) + 1 && s.active.w[name][len(s.active.w[name]) - 1].ready == w.ready)
+//@        len(s.active.w[name]) >= old(len(s.active.w[name])) + 1 && s.active.w[name][len(s.active.w[name]) - 1].ready == w.ready)
 //@   ensures [C12 watcher.unlocked] !s.active.Mutex
 //@   ensures [C15 watcher.consumes-no-signal] slotRecvs == old(slotRecvs)
 //@   ensures [C12 watcher.inv] storeInv(s)
@@ -435,11 +441,15 @@ package setec
 //@   ensures [C15 updater.replace-on-success] (old(chlen(u.w.ready)) == 1 && lastBuilderErr == nil) ==> (u.err == nil && v == u.value && closes <= old(closes) + 1)
 //@   ensures [C15 updater.consumes-exactly-the-pending-signal] slotRecvs == old(slotRecvs) + old(chlen(u.w.ready))
 //@   ensures [C15 updater.unlocked] !u.mu
+// Err only reports: it neither consumes a pending signal nor clears the recorded error
+//@ func (*Updater).Err(u) (r)
+//@   requires u != nil && !u.mu
+//@   ensures [C15 updatererr.only-reports] r == old(u.err) && u.err == old(u.err) && slotRecvs == old(slotRecvs) && builderCalls == old(builderCalls) && !u.mu
 //@ func NewUpdater(ctx, s, name, newValue) (u, err)
 //@   requires storeInv(s) && !s.active.Mutex && ctx != nil && s.client != nil && newValue != nil
 //@   interference at newValue writers (*client/setec.Store).applyUpdates assume storeInv(s) && !s.active.Mutex && net == old(net) && has(s.active.w, name) == old(has(s.active.w, name)) && s.active.w[name] == old(s.active.w[name]) &&
 //@        (forall c ref :: isSlot(c) ==> (chlen(c) >= old(chlen(c)) && (old(chlen(c)) <= 1 ==> chlen(c) <= 1)))
-//@   at call newValue: assert [C15 newupdater.watcher-registered-before-the-value-is-built] has(s.active.w, name) && len(s.active.w[name]) == old(len(s.active.w[name])) + 1
+//@   at call newValue: assert [C15 newupdater.watcher-registered-before-the-value-is-built] has(s.active.w, name) && len(s.active.w[name]) >= old(len(s.active.w[name])) + 1
 //@   ensures [C15 newupdater.ready-for-get] err == nil ==> (u != nil && !u.mu && u.newValue != nil && u.logf != nil && u.w.Secret != nil && u.w.ready != nil && isSlot(u.w.ready) && chcap(u.w.ready) == 1 && chlen(u.w.ready) >= 0 && chlen(u.w.ready) <= 1)
 //@   ensures [C15 newupdater.initial-value-built-once] err == nil ==> (builderCalls == old(builderCalls) + 1 && lastBuilderErr == nil && lastBuiltFrom == lastHandleValue)
 //@   ensures [C15 newupdater.consumes-no-signal] slotRecvs == old(slotRecvs)
